@@ -36,6 +36,40 @@ MAP = [
  ("S39", "C04", "A", "upsert-edge-via-delete-edge-exact-drops-attachment", "an existing edge carrying an attachment is upserted with a changed record while its attachment value stays the same", "first run: caught by C14.R3; the C04 check itself crashed (KeyError) - fixed"),
  ("S40", "C04", "B", "diff-edges-through-reverse-index-misses-retype", "an edge that keeps id and endpoints but changes only its type", "first run: caught (C04.R9 + fail-closed anchor)"),
 ]
+CHANGE = {
+ "S09": "`checkpoint_for` replaced by a lazy per-head capture inside the commit loop: a second head on the same worldline overwrites the saved pre-pass frontier with one that already contains the first head's commit",
+ "S10": "receipt-correlation undo entry is pushed after the index update, so `previous_pending_submission` is read after the removal and rollback never re-inserts the submission",
+ "S11": "`rewrite_filesystem_segments_after_truncation` returns early when no decoded record would be dropped, leaving a torn partial record in place",
+ "S12": "`refresh_cursor_from_store_for_writer` recovers with `recover_read_only()` instead of `recover_for_writer()`: frames of the failed transaction stay in the segment",
+ "S13": "`read_segment_bytes` treats an all-zero record header as a torn tail instead of a digest mismatch",
+ "S14": "`validate_recovery_frame_order` requires `lsn == previous+1` only inside one writer epoch and `>=` across an epoch change",
+ "S15": "`can_fit_f16` gets a range pre-check using `f16::MIN_POSITIVE` (smallest normal), so f16 subnormals 'do not fit' and their f32 spelling is accepted",
+ "S16": "`read_optional_hash/lsn` folded into a generic `read_optional` that treats every non-zero presence byte as present",
+ "S17": "ABI CBOR cursor reads folded into a `take()` helper that computes `*idx + n` unchecked",
+ "S18": "`TickReceiptBatchRecord::from_payload_bytes` guard rewritten in the `count > remaining/width` idiom, silently dropping the `member_count == 0` arm before `members[0]`",
+ "S19": "footprint-guard metadata map keyed by the scope node alone instead of (origin, scope)",
+ "S20": "`op_write_targets` rebuilt as default + per-arm mutation with `SetAttachment | OpenPortal` merged: OpenPortal loses `is_instance_op`",
+ "S21": "divergence/parent-movement collectors deduplicated into a helper that keeps only `LocalCommit` entries",
+ "S22": "settlement failure rollback restores only the target frontier instead of the whole runtime: `global_tick` leaks",
+ "S23": "`resolve_coordinate` rewrites `Tick(t)` with `t == frontier_tick` to `Frontier`",
+ "S24": "checkpoint+tail witness basis takes its tail end from `provenance.len()-1` instead of the materialized tick",
+ "S25": "coordinator `ready = false` moved from before the frame-append loop to just before the commit flush",
+ "S26": "`claim_grant` refuses on `!posture.awaits_outcome()` (Claimed or Settled(OutcomeUnknown)) instead of `settlement.is_some()`",
+ "S27": "BitAnd reducer loop breaks once the accumulator is all-zero",
+ "S28": "pending emissions wrapped in an active-run + settled-map structure; the duplicate check only sees the current run",
+ "S29": "`Add`/`Sub` for `F32Scalar` build the result with a new `from_sum` that canonicalises only NaN",
+ "S30": "trig range reduction `rem_euclid(TAU)` replaced by `x - floorf(x/TAU)*TAU` plus one fold-back",
+ "S31": "`put_verified` (both tiers) returns Ok before hashing when the expected hash is already stored",
+ "S32": "self-contained WSC validators deduplicated; the payload hash check moved inside the loop over `Present` records",
+ "S33": "`RadixScheduler` recycles the last retired `PendingTx` (spare slot) for the next transaction without clearing an undrained queue",
+ "S34": "`apply_reserved_rewrites` drops merged ops that 'restate' the pre-tick value",
+ "S35": "work-queue worker caches the resolved store and re-resolves only when the globally preceding unit is in another warp",
+ "S36": "both merge paths keep only the first op per key within each delta before the global sort and conflict check",
+ "S37": "`radix_sort` skips passes whose digit it judges constant, indexing the difference array by pair instead of 2*pair",
+ "S38": "`reserve_for_receipt` finds blockers through an index that remembers one (the last) reader per resource",
+ "S39": "`upsert_edge_record` re-implemented as `delete_edge_exact` + insert, which also clears the edge's attachment",
+ "S40": "`diff_edges` matches edges through the reverse indexes (from/to only): a type-only change emits no `UpsertEdge`",
+}
 res = json.load(open("/tmp/seeds/seed_results.json")) if os.path.exists("/tmp/seeds/seed_results.json") else {}
 for sid, prop, var, slug, needs, first in MAP:
     src = "/tmp/seeds/out-%s/%s" % (prop, var)
@@ -67,7 +101,9 @@ for sid, prop, var, slug, needs, first in MAP:
     fired = res.get(key, {})
     det = sorted({"%s %s %s" % (p, k[0], k[1]) for p, v in fired.items() if isinstance(v, dict) for k in v.get("fired", []) if not k[0].startswith(("anchor", "floor"))})
     det_anchor = sorted({"%s %s" % (p, k[1][:80]) for p, v in fired.items() if isinstance(v, dict) for k in v.get("fired", []) if k[0].startswith("anchor")})
-    meta = {"id": os.path.basename(dst), "breaks_property": prop, "needs_to_manifest": needs, "base_commit": "011e441 (patch still applies to the current /repo HEAD)",
+    NOISE = ("provenance-coordinate:commit_hash-compared",)  # a finding on the unchanged tree that was still unfixed while the seed runs were in progress
+    det = [d_ for d_ in det if not d_.endswith(NOISE)]
+    meta = {"id": os.path.basename(dst), "breaks_property": prop, "change": CHANGE.get(sid, ""), "needs_to_manifest": needs, "base_commit": "011e441 (patch still applies to the current /repo HEAD)",
             "confirmed_by_me": confirmed, "what_i_ran": conf_txt + " Then: git -C /repo apply patch.diff; all twenty ./check Cnn; git -C /repo checkout -- . (selftest/run_seeds.py).",
             "detected_by": det, "detected_only_by_fail_closed_anchor": det_anchor if not det else [], "first_run": first}
     json.dump(meta, open(dst + "/meta.json", "w"), indent=1)
